@@ -51,6 +51,8 @@ def cases(tier):
     for n in (1, 3):
         for declare in (False, True):
             cs.append({'name': 'writer-crash/n%d/%s' % (n, 'declared' if declare else 'deferred'), 'n': n, 'declare': declare, 'vel': n == 3, 'mode': 'crash'})
+            cs.append({'name': 'writer-crash/n%d/%s/non-ascii-title' % (n, 'declared' if declare else 'deferred'), 'n': n, 'declare': declare, 'vel': n == 3,
+                       'mode': 'crash', 'title': 'Jos\u00e9 25 \u00b0C \u00c5'})
     return cs
 
 
@@ -78,14 +80,14 @@ def run_case(case):
     st = {'paths': 0, 'queries': 0, 'solver_s': 0.0}
     recs = _records(n, vel)
     if case['mode'] == 'crash':
-        text, ops = write_gro_text(recs, box=box, declare=declare, position_format=case.get('fmt'), oplog=True)
+        text, ops = write_gro_text(recs, box=box, declare=declare, position_format=case.get('fmt'), oplog=True, comment=case.get('title', 'title'))
         import os, tempfile
         tmpd = tempfile.mkdtemp(prefix='c14-')
 
         def on_disk(content):
             # crash points are concrete contents: they are read through a real file (no file model involved)
             pth = os.path.join(tmpd, 'partial.gro')
-            with open(pth, 'w') as fh:
+            with open(pth, 'w', encoding='utf-8') as fh:
                 fh.write(content)
             return pth
 
@@ -113,7 +115,7 @@ def run_case(case):
                 # only acceptable if the content is already the complete file's records and the box line has been started
                 good = got == full and len(partial) > text.rfind('\n', 0, len(text) - 1) + 1
                 records.append({'name': desc + ': accepted', 'status': 'unsat' if good else 'sat', 'secs': 0,
-                                'witness': None if good else {'kind': 'crash', 'n': n, 'declare': declare, 'vel': vel, 'k': k}})
+                                'witness': None if good else {'kind': 'crash', 'n': n, 'declare': declare, 'vel': vel, 'k': k, 'title': case.get('title')}})
             else:
                 records.append({'name': desc + ': rejected (%s)' % err, 'status': 'unsat', 'secs': 0})
         samples.append({'operations': [str(o)[:60] for o in ops][:8]})
@@ -201,7 +203,7 @@ def replay(w):
     recs = _records(w['n'], w['vel'])
     box = w.get('box') or (3.0, 4.0, 5.0)
     if w['kind'] == 'crash':
-        text, ops = write_gro_text(recs, box=box, declare=w['declare'], oplog=True)
+        text, ops = write_gro_text(recs, box=box, declare=w['declare'], oplog=True, comment=w.get('title') or 'title')
         partial = apply_ops(ops[:w['k']])
         where = 'after %d writer operations' % w['k']
     else:
@@ -212,8 +214,8 @@ def replay(w):
     p = os.path.join(d, 'partial.gro')
     full_p = os.path.join(d, 'full.gro')
     try:
-        open(p, 'w').write(partial)
-        open(full_p, 'w').write(text)
+        open(p, 'w', encoding='utf-8').write(partial)
+        open(full_p, 'w', encoding='utf-8').write(text)
         g = GroFile(full_p); full = [tuple(r) for r in g.readlines()]; g.close()
         box_start = text.rfind('\n', 0, len(text) - 1) + 1
         try:
